@@ -287,7 +287,40 @@ pub fn job_c01(out_dir: &str, tier: &str, seed: u64) {
             emit(&mut sh, &cfg, &input, &cuts, &mut n);
         }
     }
-    sh.finish(json!({"rule": "inputs: empty, every single fragment of the alphabet, all ordered pairs over a seed-rotated pool, seeded fragment sequences / balanced documents / random bytes, high-byte text in legacy encodings; schedules: single write, every 1-cut, every 2-cut (short inputs), byte-wise, byte-wise with empty writes, leading/trailing empty write, random k-cuts; configurations: 13 observer handler sets x strict x encodings x prealloc. A case is non-trivial when the input is non-empty; distinct = distinct (cfg, projected timeline).",
+    // (4) long tokens (buffered across several writes) and multi-write schedules whose boundaries fall inside tags:
+    // the parsing buffer is filled, partly consumed, emptied and filled again
+    let nlong = if quick { 250 } else { 6000 };
+    for li in 0..nlong {
+        let mut input = Vec::new();
+        let mut inside: Vec<usize> = Vec::new();   // offsets inside tags / comments
+        for _ in 0..(3 + rng.below(4)) {
+            let start = input.len();
+            match rng.below(6) {
+                0 => { input.extend_from_slice(b"<img alt=\""); let n = 100 + rng.below(220); for j in 0..n { input.push(b'a' + ((j + li) % 26) as u8); } input.extend_from_slice(b"\" class=c>"); }
+                1 => { input.push(b'<'); let n = 110 + rng.below(200); for j in 0..n { input.push(b'a' + ((j * 3 + li) % 26) as u8); } input.extend_from_slice(b" x=1>"); }
+                2 => { input.extend_from_slice(b"<!--"); let n = 20 + rng.below(200); for j in 0..n { input.push(b'k' + ((j + li) % 5) as u8); } input.extend_from_slice(b"-->"); }
+                3 => input.extend_from_slice(b"<a href=x class='y z'>"),
+                4 => input.extend_from_slice(b"</a><p id=q>"),
+                _ => { input.extend_from_slice("text \u{FEFF}\u{e9} ".as_bytes()); continue; }
+            }
+            let end = input.len();
+            for _ in 0..2 { inside.push(start + 1 + rng.below(end - start - 1)); }
+        }
+        input.extend_from_slice(b"<b cla");
+        input.extend_from_slice(b"ss=z>end</b>");
+        if inside.is_empty() { inside.push(1); }
+        let hs_idx = [0usize, 1, 2, 6, 12][li % 5];
+        let (_, hs) = &sets[hs_idx % sets.len()];
+        let cfg = gen::merge(hs, &json!({"strict": false, "enc": "utf-8", "mem": {"prealloc": *rng.pick(&[0usize, 1024])}}));
+        for _ in 0..(if quick { 4 } else { 8 }) {
+            let k = 3 + rng.below(4);
+            let mut cuts: Vec<usize> = (0..k).map(|_| if rng.chance(3, 4) { *rng.pick(&inside[..]) } else { rng.below(input.len() + 1) }).collect();
+            cuts.push(input.len() - 9);  // inside the last start tag
+            cuts.sort_unstable(); cuts.dedup();
+            emit(&mut sh, &cfg, &input, &cuts, &mut n);
+        }
+    }
+    sh.finish(json!({"rule": "inputs: empty, every single fragment of the alphabet, all ordered pairs over a seed-rotated pool, seeded fragment sequences / balanced documents / random bytes, long tokens (100-320 bytes) under 4-7-write schedules with boundaries inside tags, high-byte text in legacy encodings; schedules: single write, every 1-cut, every 2-cut (short inputs), byte-wise, byte-wise with empty writes, leading/trailing empty write, random k-cuts; configurations: 13 observer handler sets x strict x encodings x prealloc. A case is non-trivial when the input is non-empty; distinct = distinct (cfg, projected timeline).",
         "frag_alphabet": gen::FRAGS.len()}));
 }
 
